@@ -11,6 +11,19 @@ E2 = "stateless model checking: exhaustive DFS of the choice tree of RNG answers
 E3 = "explicit-state BFS over operation histories of the real object, reference-model comparison in every state"
 
 CHECKS = {
+    "C15": dict(
+        built=True,
+        category="exploration",
+        engine="E1+E4",
+        technique=E1 + "; all graphs on <=5 nodes x all node orders (incl. asymmetric listings), definitional oracles",
+        text="All simple graphs on <=5 nodes under all 120 node orders and both neighbour orders, all 4^6 asymmetric listings "
+        "on 4 nodes, arbitrary neighbour sequences (self loops, duplicates), outside neighbours; all digraphs on <=4 nodes x 3 "
+        "dampings for pagerank (callback and edge-list form), all graphs on <=5 nodes x 3 resolutions for louvain. Each answer "
+        "is compared with the literal definition (delete and count components, iterated deletion, equation residual <= n*tol, "
+        "recomputed modularity); louvain termination by fuel.",
+        note="Trusts: union-find component counting, the contraction bound for the PageRank residual. Bound: n <= 5 (6 thorough).",
+        ref="2/C15",
+    ),
     "C14": dict(
         built=True,
         category="exploration",
